@@ -242,11 +242,11 @@ def posToJ (p : Pos) : J :=
 
 def ringToJ (r : List Pos) : J := .arr (r.map posToJ)
 
-/-- `a or b or None` on Z values -/
+/-- `nw.z if nw.z is not None else se.z` (repo fix 68e2a82: a Z of 0.0 is kept) -/
 def zOr (a b : Option Rat) : Option Rat :=
   match a with
-  | some x => if x ≠ 0 then some x else (match b with | some y => if y ≠ 0 then some y else none | none => none)
-  | none => (match b with | some y => if y ≠ 0 then some y else none | none => none)
+  | some x => some x
+  | none => b
 
 /-- `bounding_coords(k=k)` -/
 def PolySrc.bounding : PolySrc → Option Nat → List Pos
